@@ -401,6 +401,12 @@ def same_elem(a, i, b, j):
     return a[i] is b[j]
 
 
+def same_elem_obj(a, b):
+    """a is b, for objects that may have been taken out of sequences: two elements of one input sequence are the
+    same object iff their indices are equal (the elements of an input sequence are pairwise distinct objects)"""
+    return a is b
+
+
 def elem_is(x, s, j):
     """x is s[j]"""
     return x is s[j]
